@@ -565,6 +565,29 @@ func c12Fill(c *Ctx, rule string) {
 					if !first {
 						ok, why = false, "element 0 is not set to the value before doubling"
 					}
+					// ... and only once the slice is known not to be empty (Fill of an empty slice fills nothing, it
+					// does not fail with an index error)
+					for i := 0; i < p.LoopAt[li.Hdr] && i < len(p.Events); i++ {
+						e := &p.Events[i]
+						if !(e.Kind == "store" && e.Addr.Op == "iaddr" && e.Addr.Args[0].Key() == s.Key() && e.Addr.Args[1].IsConst("0")) {
+							continue
+						}
+						lenS := ToPoly(&Term{Op: "builtin", Sym: "len", Args: []*Term{s}})
+						guarded := false
+						for _, cd := range p.Conds {
+							if cd.NEv > i {
+								continue
+							}
+							if pl, kind, isInt := cd.Rel().IntNorm(); isInt {
+								if kind == "!=" && pl.Equal(canonSign(lenS)) || kind == ">" && pl.Equal(lenS) {
+									guarded = true
+								}
+							}
+						}
+						if !guarded {
+							ok, why = false, "slice[0] is written without the slice being known to be non-empty: Fill panics on an empty slice"
+						}
+					}
 					// continue condition i < len(s)
 					var cont *Rel
 					for _, cd := range p.Conds {
